@@ -131,6 +131,24 @@ def c01(run):
                                   "bounds; floats on short dyadic rationals only (DESIGN.md section 9)"])
 
 
+@check("C09")
+def c09(run):
+    fams = ["kindsinfix", "kindsother", "raw09"]
+    sts = run.tlc_many([dict(module="MC_Expr", cfg=expr_cfg(fam), name="MC_Expr_" + fam, timeout=1500, workers=2)
+                        for fam in fams])
+    for fam, st in zip(fams, sts):
+        path, n = run.records(st)
+        run.replay("render", path, name="render-" + fam)
+        run.add_samples(path, 1)
+    return vp.finish(run, "model_checking",
+                     "the kind-confusion matrix: every binary operator x 16 value kinds on both sides (incl. the int64 "
+                     "bounds, empty and non-empty strings/arrays/objects, nil), every prefix/postfix operator, index and "
+                     "member access x every receiver and key kind, conditions of every kind, and raw templates with "
+                     "absent loop clauses and misplaced directives; the model (total: value, demanded error, or "
+                     "unspecified) predicts each and the harness requires: no panic, no hang, the predicted value or "
+                     "error where fixed, and a line >= 1 on every evaluation error", exhaustive=True)
+
+
 # ------------------------------------------------------------------ machine E (evaluator): C02 C03 C04
 EVAL_INV = "ScopeBalance TypeStable LoopReserved LoopMeta Gen"
 
@@ -188,6 +206,70 @@ def c04(run):
                       "block skeletons (flat, if, else, each, for, each-in-if, loops binding x itself) x 4 data maps "
                       "pre-binding the names; 'loop' as assignment target and as data key; reads after the construct "
                       "of names bound inside it; TLC checks TypeStable, LoopReserved, ScopeBalance on every state")
+
+
+# ------------------------------------------------------------------ C10, C13
+def text_cfg(family):
+    return """CONSTANTS
+  Family = "%s"
+  Emit_ = TRUE
+SPECIFICATION Spec
+INVARIANTS Gen
+CHECK_DEADLOCK FALSE
+""" % family
+
+
+@check("C10")
+def c10(run):
+    fam = "c10len2" if run.tier == "quick" else "c10len3"
+    st = run.tlc("MC_Text", text_cfg(fam), name="MC_Text_" + fam, timeout=3000, workers=1)
+    path, n = run.records(st)
+    run.replay("render", path, name="render-" + fam)
+    run.add_samples(path, 2)
+    return vp.finish(run, "model_checking",
+                     "every literal up to the length bound over the 14-character alphabet < > & ; # \" ' a 3 4 9 x SP e-acute "
+                     "(plus literals spelling existing entities) x both quote styles x 14 usage contexts (printed, "
+                     "concatenated, assigned, array element, object value, @if body, ternary, @each, and raw() at each); "
+                     "TLC checks NoRawAngle / AmpIsEntity / QuotesKept / Unescape(Escape(l)) = l for every literal one "
+                     "character longer than the replayed bound; the harness requires the escaped (or raw) text exactly",
+                     exhaustive=True)
+
+
+@check("C13")
+def c13(run):
+    fam = "c13one" if run.tier == "quick" else "c13two"
+    st = run.tlc("MC_Text", text_cfg(fam), name="MC_Text_" + fam, timeout=3000, workers=1)
+    path, n = run.records(st)
+    run.replay("render", path, name="render-" + fam)
+    run.add_samples(path, 2)
+    return vp.finish(run, "model_checking",
+                     "13 single-line faults (undefined identifier, mistyped operand, unknown function / property, "
+                     "division / modulo by zero, illegal character, unexpected tokens, type change, non-array) placed at "
+                     "top level, in @if, @else, @each and @for bodies, after every sequence (up to the bound) of 14 "
+                     "multi-line preambles (text runs, strings and comments containing newlines, CRLF, multi-line {{ }}, "
+                     "blocks, non-ASCII); the expected line is known by construction; the harness requires an error "
+                     "on exactly that line", exhaustive=True)
+
+
+@check("C11")
+def c11(run):
+    fams = ["str2", "arr2", "num"] if run.tier == "quick" else ["str3", "arr3", "num"]
+    sts = run.tlc_many([dict(module="MC_Builtins", cfg=text_cfg(fam).replace("INVARIANTS Gen", "INVARIANTS Total Gen"),
+                             name="MC_Builtins_" + fam, timeout=3000, workers=2) for fam in fams])
+    for fam, st in zip(fams, sts):
+        path, n = run.records(st)
+        run.replay("render", path, name="render-" + fam)
+        run.add_samples(path, 1)
+    return vp.finish(run, "model_checking",
+                     "every built-in on its whole small domain: all strings up to the length bound over {a, B, e-acute, "
+                     "euro, emoji, space}, all arrays up to the bound over {1, 2, \"a\", [1], {k:1}, nil}, ints -4..4 and "
+                     "the int64 bounds, floats in quarter steps -2.75..2.75 plus ties; at/truncate/repeat with every "
+                     "count -1..4, slice with every (start, end) in -2..6 on lengths 0..4, contains with every "
+                     "substring / element, trims, splits, decimal variants, wrong-kind and missing arguments; rendered "
+                     "as {{ r = recv }}{{ r.f(args) }}|{{ r }} so the unchanged receiver is observed; custom functions "
+                     "registered under every built-in name must not take precedence; output must be valid UTF-8",
+                     exhaustive=True,
+                     assumptions=["Unicode case mapping checked on a 6-character table only"])
 
 
 def replay(path):
